@@ -195,6 +195,8 @@ def trainer_kwargs(spec, steps):
         kw.update(limit_val_batches=0, num_sanity_val_steps=0)
     if t.get("limit_train_batches"):
         kw["limit_train_batches"] = int(t["limit_train_batches"])
+    if t.get("precision"):
+        kw["precision"] = t["precision"]          # e.g. "64-true": the modules are converted when the fit starts
     return kw
 
 
